@@ -757,6 +757,47 @@ def vtlp_rules(ck, P, rule="R-TABLE-INDEX"):
         ck.check(ok, rule, b["q"] + "|enumerate", "new() maps each list element to its own position (list.iter().enumerate())", "new() does not build map = {list[i] -> i}", ir.loc(b))
 
 
+def eq_hash_rules(ck, P, rule="R-TABLE-INDEX"):
+    """The key/value tables are hash maps keyed by the property values.  A lookup is `hash, then ==`, so equality must agree with the
+    hash (k1 == k2 => hash(k1) == hash(k2)) and be an equivalence (Eq): for a key type that carries floats and hashes their bit
+    pattern, `==` must compare bit patterns / total order as well.  IEEE `==` (what derive(PartialEq) generates) says 0.0 == -0.0
+    although they hash differently - whether the table then hands back the index of the other zero depends on the random hash seed -
+    and NaN != NaN."""
+    keyed = []
+    for q, a in P.adts.items():
+        if a.get("crate") != "versatiles_geometry":
+            continue
+        floats = [f["name"] or "#%d" % i for v in a["variants"] for i, f in enumerate(v["fields"]) if f["t"] in ("f32", "f64")]
+        impls = {i.get("trait"): i for i in P.impls if i.get("self_adt") == q and i.get("trait")}
+        if floats and "core::hash::Hash" in impls and "core::cmp::Eq" in impls:
+            keyed.append((q, a, impls))
+    if not ck.anchor(rule, "float-carrying key types (impl Hash + Eq)", keyed, 1):
+        return
+    for q, a, impls in keyed:
+        hb = [P.fn(m["q"]) for m in impls["core::hash::Hash"]["methods"]]
+        hb = [b for b in hb if b is not None]
+        bits = any(ir.contains(b["body"], lambda y: y.get("k") == "mcall" and y.get("name") == "to_bits") for b in hb)
+        pe = impls.get("core::cmp::PartialEq")
+        derived = "core::marker::StructuralPartialEq" in impls
+        ieee = []
+        if pe is not None:
+            for m in pe["methods"]:
+                b = P.fn(m["q"])
+                if b is None:
+                    continue
+                for n in ir.walk_nodes(b["body"]):
+                    if n.get("k") == "bin" and n.get("op") in ("==", "!="):
+                        t = (ir.strip(n["l"]).get("t") or "").replace("&", "").strip()
+                        if t in ("f32", "f64"):
+                            ieee.append(ir.loc(n))
+        ok = bits and not derived and not ieee
+        ck.check(ok, rule, q + "|eq-agrees-with-hash", "equality of the table key type compares floats the way its hash does (bit pattern / total order), so a lookup finds exactly the stored value",
+                 "%s is a hash-map key with float payloads whose Hash %s but whose == is %s: 0.0 == -0.0 with different hashes (the value table hands back the index of the other zero "
+                 "depending on the hash seed: a stored -0.0 comes back as 0.0) and NaN != NaN" %
+                 (q, "hashes the bit pattern" if bits else "does not hash the bit pattern", "derived (IEEE comparison of the floats)" if derived else ("IEEE comparison at %s" % ieee[:2] if ieee else "ok")),
+                 ir.loc(hb[0]) if hb else None)
+
+
 def total_order_rules(ck, P, rule="R-TOTAL-ORDER"):
     """Property tables are rebuilt with slice::sort_unstable_by over the property values; since Rust 1.81 the sort panics
     when the comparator is not a total order.  Every workspace `Ord::cmp` reachable from a sort must therefore be total:
